@@ -299,6 +299,13 @@ def contracts():
     must("grad of complex-valued", lambda: autograd.grad(lambda t: t * (1.0 + 2.0j))(0.5))
     must("value_and_grad of array-valued", lambda: autograd.value_and_grad(lambda t: t * 2.0)(x))
     must("elementwise_grad of complex output", lambda: autograd.elementwise_grad(lambda t: t * 1j)(x))
+    must("grad_and_aux of array-valued", lambda: autograd.grad_and_aux(lambda t: (anp.outer(t, t), 0.5))(x))
+    must("grad_and_aux of complex-valued", lambda: autograd.grad_and_aux(lambda t: (anp.sum(t * t) * (1.0 + 2.0j), 0.5))(x))
+    must("make_hvp of array-valued", lambda: autograd.make_hvp(lambda t: anp.sin(t))(x)[0](x))
+    must("hessian_vector_product of array-valued", lambda: autograd.hessian_vector_product(lambda t: anp.sin(t))(x, x))
+    must("hessian_tensor_product of complex-valued", lambda: autograd.hessian_tensor_product(lambda t: anp.sum(t * t) * 1j)(x, x))
+    must("grad of array-valued, argnum tuple", lambda: autograd.grad(lambda a, b: a * b, (0, 1))(x, x))
+    must("value_and_grad of complex-valued", lambda: autograd.value_and_grad(lambda t: anp.sum(t) * 1j)(x))
     must("grad wrt int", lambda: autograd.grad(lambda t: t * 2.0)(3))
     must("grad wrt bool", lambda: autograd.grad(lambda t: t * 2.0)(True))
     must("grad wrt str", lambda: autograd.grad(lambda t: 2.0)("abc"))
@@ -350,6 +357,7 @@ def contract_body(c):
     i = c.int(0, len(_CON) - 1)
     name, thunk = _CON[i]
     sample = {"contract": name}
+    c.features.update(contract=name)
     try:
         with warnings.catch_warnings():
             warnings.simplefilter("ignore")
